@@ -30,6 +30,11 @@ fn stack_walker(g: &mut Gen, model: &Model, tree: &[Node], has_links: bool, stat
     // are deeper than the statically composed type allows (5 to 10 layers plus the observer)
     w.erased = g.rng.chance(1, 3);
     let max_layers = if w.erased && g.rng.chance(1, 3) { 10 } else { max_layers };
+    let observer = !g.rng.chance(3, 10);
+    if !observer && g.rng.chance(2, 3) {
+        // (a feed tap on top would itself be the outermost combinator)
+        w.taps = false;
+    }
     let mut victims = Vec::new();
     w.layers = layers(
         g,
@@ -37,7 +42,12 @@ fn stack_walker(g: &mut Gen, model: &Model, tree: &[Node], has_links: bool, stat
         &w,
         &StackOpts {
             max_layers,
-            observer: true,
+            // Usually a pass-through observer is placed last, as the property suggests. In three
+            // runs of ten it is left out, so that the last *real* combinator is the outermost one
+            // and is driven through `Iterator::next` by the consumer rather than through `feed` by
+            // a combinator above it (the two are different code paths in every combinator); what
+            // the layers beneath it are shown is then the evidence.
+            observer,
         },
         stats,
         &mut victims,
